@@ -100,8 +100,13 @@ func (fr *Frame) call(in ssa.Instruction, c *ssa.CallCommon, st *State, reach st
 	// 5. unknown callee: havoc everything it may reach
 	g.note("%s: call to %s without contract: heap and result havocked", fr.fn, name)
 	for _, a := range args {
-		if a.Loc != nil && a.T == "" {
+		if a.Loc != nil {
 			fr.escape(a, st)
+		}
+		for _, b := range a.Bind {
+			if b.Loc != nil {
+				fr.escape(b, st)
+			}
 		}
 	}
 	g.havocAll(st)
@@ -236,6 +241,77 @@ func (fr *Frame) inline(callee *ssa.Function, args []Val, binds []Val, st *State
 	return Val{Go: callee.Signature.Results(), Tup: res}, true
 }
 
+// pureInline evaluates a call of a known, loop-free, side-effect-free closure/function as a pure term in state st
+// (used for function values applied inside contract expressions, possibly under quantifiers).
+func (g *Gen) pureInline(f Val, args []Val, st *State) (res Val, ok bool) {
+	callee := f.Fn
+	if callee == nil || len(callee.Blocks) == 0 || len(callee.FreeVars) != len(f.Bind) || callee.Signature.Results().Len() != 1 {
+		return Val{}, false
+	}
+	for _, b := range callee.Blocks {
+		for _, s := range b.Succs {
+			if s.Dominates(b) {
+				return Val{}, false
+			}
+		}
+		for _, in := range b.Instrs {
+			switch in.(type) {
+			case *ssa.Store, *ssa.MapUpdate, *ssa.Defer, *ssa.Go, *ssa.Select, *ssa.Send, *ssa.Alloc, *ssa.MakeSlice, *ssa.MakeMap, *ssa.Panic:
+				return Val{}, false
+			}
+		}
+	}
+	if len(g.inlineStk) > 6 {
+		return Val{}, false
+	}
+	g.pure++
+	savedNotes := len(g.notes)
+	defer func() {
+		g.pure--
+		if r := recover(); r != nil {
+			if _, isEval := r.(evalErr); isEval {
+				g.notes = g.notes[:savedNotes]
+				res, ok = Val{}, false
+				return
+			}
+			panic(r)
+		}
+	}()
+	sub := g.newFrame(callee, nil, 1, "pure.")
+	for i, p := range callee.Params {
+		if i < len(args) {
+			a := args[i]
+			a.Go = p.Type()
+			sub.vals[p] = a
+		}
+	}
+	for i, fv := range callee.FreeVars {
+		sub.vals[fv] = f.Bind[i]
+	}
+	g.inlineStk = append(g.inlineStk, callee)
+	defer func() { g.inlineStk = g.inlineStk[:len(g.inlineStk)-1] }()
+	work := st.clone()
+	if err := sub.run(work, "true"); err != nil || len(sub.rets) == 0 {
+		return Val{}, false
+	}
+	// the closure must not have changed the state
+	for _, r := range sub.rets {
+		if r.st.epoch != st.epoch {
+			return Val{}, false
+		}
+	}
+	var conds, ts []string
+	for _, r := range sub.rets {
+		if r.results[0].T == "" {
+			return Val{}, false
+		}
+		conds = append(conds, r.reach)
+		ts = append(ts, r.results[0].T)
+	}
+	rt := callee.Signature.Results().At(0).Type()
+	return Val{T: mergeTerms(conds, ts), Go: rt, Sort: g.sorts.SortOf(rt)}, true
+}
+
 // bindParams builds the variable map for evaluating a callee's contract at a call site.
 func bindParams(sig *types.Signature, recv *Val, args []Val, isMethodValue bool) map[string]Val {
 	vars := map[string]Val{}
@@ -303,14 +379,14 @@ func (fr *Frame) applyContract(fc *FuncContract, name, short string, ord int, si
 	for i, l := range fc.Lets {
 		v, err := env.Eval(fc.LetE[i])
 		if err != nil {
-			efail("contract of %s: let %s: %v", short, l.Name, err)
+			panic(contractErr{fmt.Sprintf("contract of %s (%s:%d): let %s: %v", short, fc.File, fc.Line, l.Name, err)})
 		}
 		env.vars[l.Name] = v
 	}
 	for i, r := range fc.Requires {
 		t, err := env.EvalBool(r.E)
 		if err != nil {
-			efail("contract of %s: requires: %v", short, err)
+			panic(contractErr{fmt.Sprintf("contract of %s (%s:%d): requires: %v", short, r.File, r.Line, err)})
 		}
 		lbl := r.Label
 		if lbl == "" {
@@ -339,7 +415,7 @@ func (fr *Frame) applyContract(fc *FuncContract, name, short string, ord int, si
 			for _, m := range fc.Modifies {
 				locs, err := env.evalModLocs(m)
 				if err != nil {
-					efail("contract of %s: modifies: %v", short, err)
+					panic(contractErr{fmt.Sprintf("contract of %s (%s:%d): modifies: %v", short, fc.File, fc.Line, err)})
 				}
 				for _, l := range locs {
 					fr.havocLoc(st, l.l, l.whole)
@@ -360,7 +436,7 @@ func (fr *Frame) applyContract(fc *FuncContract, name, short string, ord int, si
 	for _, c := range fc.Ensures {
 		t, err := post.EvalBool(c.E)
 		if err != nil {
-			efail("contract of %s: ensures: %v", short, err)
+			panic(contractErr{fmt.Sprintf("contract of %s (%s:%d): ensures: %v", short, c.File, c.Line, err)})
 		}
 		g.assume(sImp(reach, t))
 	}
@@ -376,6 +452,9 @@ func (fr *Frame) applyContract(fc *FuncContract, name, short string, ord int, si
 }
 
 func (g *Gen) abstractSlices() bool { return g.fc != nil && g.fc.Opts["abstract-slices"] != "" }
+
+// contractErr: a callee's contract cannot be evaluated at a call site (a contract bug, never silently havocked).
+type contractErr struct{ msg string }
 
 type modLoc struct {
 	l     *Loc
@@ -628,6 +707,11 @@ func (g *Gen) rootHeapOfAddr(fr *Frame, a ssa.Value) (string, bool) {
 			return g.elemsHeap(u.Elem().Underlying().(*types.Array).Elem()), true
 		}
 	case *ssa.Alloc:
+		if fr != nil {
+			if v, ok := fr.vals[x]; ok && v.Loc != nil {
+				return v.Loc.Heap, true
+			}
+		}
 		el := x.Type().Underlying().(*types.Pointer).Elem()
 		switch u := el.Underlying().(type) {
 		case *types.Struct:
